@@ -2725,8 +2725,43 @@ func creatingGetters(p *engine.Prog) map[*ssa.Function]bool {
 	return out
 }
 
+// builderRevertsRejected: in filterTxs the identities a rejected candidate's validation created are
+// dropped: a checkpoint taken before ValidateTx (same iteration) is handed to the revert on the edge on
+// which ValidateTx refused.
+func builderRevertsRejected(p *engine.Prog, r *engine.Report) (bool, string) {
+	f, err := p.Func("blockchain", "Blockchain.filterTxs")
+	if err != nil {
+		return false, ""
+	}
+	for _, c := range callsTo(f, "blockchain/validation.ValidateTx") {
+		vc, ok := c.(*ssa.Call)
+		if !ok {
+			continue
+		}
+		for _, g := range nilErrGuards(f, vc) {
+			if g.If == nil {
+				continue
+			}
+			fe := g.FailEdge()
+			fail := fe.From.Succs[fe.Succ]
+			for _, rc := range engine.Calls(f) {
+				if !engine.CallNameIs(rc, "RevertCreatedIdentities") || !(rc.Block() == fail || fail.Dominates(rc.Block())) {
+					continue
+				}
+				args := rc.Common().Args
+				cp, isC := engine.Origin(args[len(args)-1]).(*ssa.Call)
+				if isC && engine.CallNameIs(cp, "CheckpointIdentities") && engine.InstrDominates(cp, vc) && enclosingLoopHeader(cp.Block()) == enclosingLoopHeader(vc.Block()) {
+					return true, p.InstrPos(rc)
+				}
+			}
+		}
+	}
+	return false, ""
+}
+
 func validatorsReadWithoutCreatingRule(p *engine.Prog, r *engine.Report, rule string) {
 	getters := creatingGetters(p)
+	reverted, revertPos := builderRevertsRejected(p, r)
 	pkgFns := funcsOfPkg(p, "blockchain/validation")
 	var sites []creatingSite
 	for _, f := range pkgFns {
@@ -2834,6 +2869,10 @@ func validatorsReadWithoutCreatingRule(p *engine.Prog, r *engine.Report, rule st
 			}
 		}
 		key := uniq(r, s.fn.Name()+"|"+s.via+"("+who+") creates no record")
+		if !ok && reverted {
+			r.OK(rule, key, p.InstrPos(s.call), "creating read; the block builder drops what a rejected candidate's validation created ("+revertPos+")")
+			continue
+		}
 		r.Check(ok, rule, key, p.InstrPos(s.call), "the address was looked up without creating and a refusal depends on it", s.fn.Name()+" reads through "+s.via+", which creates an empty identity record for an address that has none and marks it dirty, and no refusal that depends on a non-creating lookup of that address lies on the way: filterTxs runs the validators on the state it builds the block on and cannot undo — when this transaction is then rejected by a later check (or left out), the record stays in the proposer's state only, and the proposal fails \"invalid block roots\" on every node, the proposer's own AddBlock included")
 	}
 	r.Check(n >= 4, rule, "scan|creating reads in the validators (control)", "", fmt.Sprintf("%d sites, %d creating getters", n, len(getters)), "fewer than four creating reads found in the validators: anchor moved")
@@ -2841,7 +2880,7 @@ func validatorsReadWithoutCreatingRule(p *engine.Prog, r *engine.Report, rule st
 
 func init() {
 	extend("C02", func(p *engine.Prog, r *engine.Report) {
-		r.Explanation += " (R10) validators read the state without creating records: a getter that goes through GetOrNewIdentityObject is called only for an address whose identity was already looked up non-creatingly with a refusal depending on it (the block builder validates on the state it builds on and cannot undo)."
+		r.Explanation += " (R10) validators read the state without creating records: a getter that goes through GetOrNewIdentityObject is called only for an address whose identity was already looked up non-creatingly with a refusal depending on it (the block builder validates on the state it builds on) — or the block builder itself drops, on the refusal edge of ValidateTx, the identities created since a checkpoint taken before it."
 		validatorsReadWithoutCreatingRule(p, r, "C02-R10")
 	})
 }
